@@ -22,6 +22,7 @@ func init() {
 		Rule:             rule,
 		Assumptions:      assumptions,
 		CrashIsViolation: true,
+		HangSeconds:      120,
 		Run:              run,
 		Replay:           replay,
 		Reproducers:      reproducers,
